@@ -1535,6 +1535,12 @@ func (b *ASTBuilder) buildParameters(tsNode *sitter.Node) []*Node {
 						arg.Children = append(arg.Children, typeASTNode)
 					}
 				}
+				// Default value of a typed_default_parameter. Value already holds the
+				// annotation text and Children the annotation, so it is kept in Right
+				// (the right-hand side of "name: type = value")
+				if valueNode := b.getChildByFieldName(child, "value"); valueNode != nil {
+					arg.Right = b.buildNode(valueNode)
+				}
 				params = append(params, arg)
 			case "list_splat_pattern":
 				arg := NewNode(NodeArg)
